@@ -45,7 +45,7 @@ theorem product_below_witness :
 theorem fx_typing (env : FEnv) (σ : State) (s : FExpr) (e : Expr) (f : Bool) (hok : s.ok env = true)
     (h : elabF env s = .ok (.ex e f)) :
     f = s.isFixed env ∧ (evalZ σ e : Rat) = s.semQ env σ * (if f then SQ else 1) := by
-  obtain ⟨h1, h2, _⟩ := elabF_rep env σ s _ hok h (by simp)
+  obtain ⟨h1, h2, _⟩ := elabF_rep env σ s _ hok h
   exact ⟨h1, h2⟩
 
 /-- the store scaling of `RegisterArray.__setitem__` / `Memory._set`: the stored tree evaluates to the scaled integer
@@ -200,8 +200,7 @@ theorem compile_want (env : FEnv) (σ : State) (st : FStmt) (c : CSt) (hc : comp
       | ok fe =>
         rw [he] at hc
         simp only [] at hc
-        have hvn : v ≠ .none := by intro hh; subst hh; simp [ensureF, typeError] at he
-        obtain ⟨_, hrep⟩ := ensureF_rep (elabF_rep env σ s v hok hv hvn) he
+        obtain ⟨_, hrep⟩ := ensureF_rep (elabF_rep env σ s v hok hv) he
         cases d with
         | reg view no =>
           simp only [pure, Except.pure, Except.ok.injEq] at hc; subst hc
@@ -258,7 +257,7 @@ theorem stmtsF_correct (env : FEnv) : ∀ (sts : List FStmt) (ps : List Pair) (g
 /-! ## the property -/
 
 /-- every hypothesis of `C02_partial` as one decidable predicate on the program: every statement can be built, its
-surface expression satisfies `FExpr.ok` (decimals in range, not *sum-minus*, no `float // non-fixed`), the built
+surface expression satisfies `FExpr.ok` (decimals in range, no `float // non-fixed`), the built
 statement is well-typed, in the fixed-point fragment and in none of C01's program-level classes -/
 def progOkF (p : FProg) : Bool :=
   match pairs p.env p.stmts with
